@@ -68,8 +68,13 @@ func (pass *AnonymousStructsToNamed) processObject(object ast.Object) ast.Object
 	pkg := object.SelfRef.ReferredPkg
 	parentName := tools.UpperCamelCase(pkg) + tools.UpperCamelCase(object.Name)
 
-	if object.Type.IsAnyOf(ast.KindArray, ast.KindMap, ast.KindDisjunction, ast.KindIntersection) {
+	if object.Type.IsAnyOf(ast.KindArray, ast.KindMap, ast.KindDisjunction) {
 		newObject.Type = pass.processType(pkg, parentName, object.Type)
+	}
+
+	// the composition an object is made of stays where it is
+	if object.Type.IsIntersection() {
+		newObject.Type = pass.processIntersection(pkg, parentName, object.Type)
 	}
 
 	if object.Type.IsStruct() {
@@ -96,7 +101,7 @@ func (pass *AnonymousStructsToNamed) processType(pkg string, parentName string, 
 	}
 
 	if def.IsIntersection() {
-		return pass.processIntersection(pkg, parentName, def)
+		return pass.processAnonymousIntersection(pkg, parentName, def)
 	}
 
 	if def.IsStruct() {
@@ -145,6 +150,16 @@ func (pass *AnonymousStructsToNamed) processDisjunction(pkg string, parentName s
 	return def
 }
 
+// processAnonymousIntersection names a composition written in place (the type of a
+// field, of the items of a list, …) like an anonymous struct: the output languages
+// know compositions as the type of an object only.
+func (pass *AnonymousStructsToNamed) processAnonymousIntersection(pkg string, parentName string, def ast.Type) ast.Type {
+	objectDef := pass.processIntersection(pkg, parentName, def.DeepCopy())
+	objectDef.Nullable = false
+
+	return pass.declare(pkg, parentName, objectDef, def)
+}
+
 func (pass *AnonymousStructsToNamed) processStruct(pkg string, parentName string, def ast.Type) ast.Type {
 	objectDef := def.DeepCopy()
 	objectDef.Nullable = false
@@ -154,6 +169,12 @@ func (pass *AnonymousStructsToNamed) processStruct(pkg string, parentName string
 		objectDef.Struct.Fields[i].Type = pass.processType(pkg, name, field.Type)
 	}
 
+	return pass.declare(pkg, parentName, objectDef, def)
+}
+
+// declare adds an object for what was written in place and returns the
+// reference that takes its place.
+func (pass *AnonymousStructsToNamed) declare(pkg string, parentName string, objectDef ast.Type, def ast.Type) ast.Type {
 	// `Panel.options.legend` and `PanelOptions.legend` lead to the same name: the second one gets a suffix
 	objectName := parentName
 	for suffix := 2; ; suffix++ {
